@@ -168,26 +168,31 @@ pub struct Template {
     pub path: &'static str,
     pub host: Option<&'static str>,
     pub header: Option<(&'static str, &'static str)>,
+    /// static query of the rule source, written (and requested) in an order that is not the canonical one
+    pub query: Option<&'static str>,
     /// marker names in the order of `slots`; location: 'p' path, 'h' host, 'x' header
     pub markers: &'static [(&'static str, char)],
 }
 
 pub fn templates() -> Vec<Template> {
     vec![
-        Template { name: "path-one", path: "/p/@a", host: None, header: None, markers: &[("a", 'p')] },
-        Template { name: "path-two-segments-prefix-names", path: "/p/@a/q/@ab", host: None, header: None, markers: &[("a", 'p'), ("ab", 'p')] },
-        Template { name: "path-two-in-one-segment", path: "/p/@ab_@a", host: None, header: None, markers: &[("ab", 'p'), ("a", 'p')] },
-        Template { name: "host+path", path: "/p/@y", host: Some("@x.example.org"), header: None, markers: &[("x", 'h'), ("y", 'p')] },
+        Template { name: "path-one", path: "/p/@a", host: None, header: None, query: None, markers: &[("a", 'p')] },
+        Template { name: "path-two-segments-prefix-names", path: "/p/@a/q/@ab", host: None, header: None, query: None, markers: &[("a", 'p'), ("ab", 'p')] },
+        Template { name: "path-two-in-one-segment", path: "/p/@ab_@a", host: None, header: None, query: None, markers: &[("ab", 'p'), ("a", 'p')] },
+        Template { name: "host+path", path: "/p/@y", host: Some("@x.example.org"), header: None, query: None, markers: &[("x", 'h'), ("y", 'p')] },
         // a marker name with upper-case letters (names are case-sensitive whatever the case mode of the router)
-        Template { name: "path-camel-case-name", path: "/p/@pId/q/@a", host: None, header: None, markers: &[("pId", 'p'), ("a", 'p')] },
-        Template { name: "header+path", path: "/p/@y", host: None, header: Some(("X-Foo", "v-@x")), markers: &[("x", 'x'), ("y", 'p')] },
+        Template { name: "path-camel-case-name", path: "/p/@pId/q/@a", host: None, header: None, query: None, markers: &[("pId", 'p'), ("a", 'p')] },
+        Template { name: "header+path", path: "/p/@y", host: None, header: Some(("X-Foo", "v-@x")), query: None, markers: &[("x", 'x'), ("y", 'p')] },
         Template {
             name: "host+path+header-prefix-chain",
             path: "/p/@ab/r/@a",
             host: Some("@abc.example.org"),
             header: Some(("X-Foo", "v-@x")),
+            query: None,
             markers: &[("abc", 'h'), ("ab", 'p'), ("a", 'p'), ("x", 'x')],
         },
+        // the request spells its query in the rule's own written order, which is not the sorted one, and ends with '&'
+        Template { name: "path-one+unsorted-static-query", path: "/p/@a", host: None, header: None, query: Some("q=1&lang=en&"), markers: &[("a", 'p')] },
     ]
 }
 
@@ -259,7 +264,7 @@ pub fn build(case: &Case) -> (Rule, Request, RouterConfig, bool, Vec<(String, St
         Some((n, v)) => json!([{"type": "match_regex", "name": n, "value": v}]),
     };
     let mut rule = json!({
-        "id": "m", "source": {"scheme": null, "host": t.host, "ips": null, "path": t.path, "query": null, "headers": headers_src, "methods": null,
+        "id": "m", "source": {"scheme": null, "host": t.host, "ips": null, "path": t.path, "query": t.query, "headers": headers_src, "methods": null,
             "exclude_methods": null, "response_status_codes": null, "exclude_response_status_codes": null, "sampling": null},
         "target": if case.static_target { "/static-target" } else { TARGET }, "status_code": 302, "rank": 1, "markers": markers,
         "body_filters": [
@@ -271,6 +276,9 @@ pub fn build(case: &Case) -> (Rule, Request, RouterConfig, bool, Vec<(String, St
         "configuration_reset_unit_id": null, "target_hash": null
     });
     let req_host = host.clone().unwrap_or_else(|| "www.example.org".to_string());
+    if let Some(q) = t.query {
+        path = format!("{path}?{q}");
+    }
     let mut req = Request::from_config(&rc, path.clone(), Some(req_host.clone()), Some("https".into()), Some("POST".into()), Some("10.2.3.4".parse().unwrap()), None);
     req.created_at = Some("2024-03-05T10:00:00Z".parse().unwrap());
     // an unrelated header comes first: the header a pattern looks at is not the first line of the request
